@@ -207,6 +207,18 @@ impl<'tcx> Interp<'tcx> {
                 if off < n {
                     let l = (*chunk as i128).min(n - off);
                     *pos += 1;
+                    if self.stack.iter().any(|b| b.name.starts_with("encodings::")) {
+                        let mut d = BTreeMap::new();
+                        d.insert("base".to_string(), self.describe_ptr(&b));
+                        d.insert("base_start".to_string(), "0".to_string());
+                        d.insert("lo".to_string(), (s0 + off).to_string());
+                        d.insert("hi".to_string(), (s0 + off + l).to_string());
+                        d.insert("of_len".to_string(), "chunk".to_string());
+                        d.insert("mutable".to_string(), "true".to_string());
+                        d.insert("path".to_string(), self.call_path());
+                        let inst = self.stack.iter().rev().find(|b| b.name.starts_with("encodings::")).map(|b| b.name.clone()).unwrap_or_default();
+                        self.probes.push(Probe { what: "range".into(), inst, ctx: String::new(), data: d });
+                    }
                     Next::Item(Val::Slice { base: b, start: IntV::konst(s0 + off, ITy::USIZE), len: IntV::konst(l, ITy::USIZE) }, false)
                 } else {
                     Next::Done
@@ -700,6 +712,18 @@ impl<'tcx> Interp<'tcx> {
             };
             let ok = lo.hi <= hi.lo && hi.hi <= l.lo;
             self.model_obligation("slice-range", ok, format!("[{}..{}] of len {}", lo.short(), hi.short(), l.short()));
+            if self.stack.last().map(|b| b.name.starts_with("encodings::")).unwrap_or(false) {
+                let mut d = BTreeMap::new();
+                d.insert("base".to_string(), self.describe_ptr(&b));
+                d.insert("base_start".to_string(), s.short());
+                d.insert("lo".to_string(), lo.short());
+                d.insert("hi".to_string(), hi.short());
+                d.insert("of_len".to_string(), l.short());
+                d.insert("mutable".to_string(), n.ends_with("index_mut").to_string());
+                d.insert("path".to_string(), self.call_path());
+                let inst = self.stack.last().map(|b| b.name.clone()).unwrap_or_default();
+                self.probes.push(Probe { what: "range".into(), inst, ctx: String::new(), data: d });
+            }
             let at = self.atoms(st);
             let ns = ops::arith(Arith::Add, &s, &lo, ITy::USIZE, true, &at).0;
             let mut nl = ops::arith(Arith::Sub, &hi, &lo, ITy::USIZE, false, &at).0;
@@ -1011,6 +1035,16 @@ impl<'tcx> Interp<'tcx> {
                 }
             }
             let r = self.struct_eq(st, &x, &y);
+            if let (Val::Arr(ax), Val::Arr(ay)) = (&x, &y) {
+                let mut d = BTreeMap::new();
+                d.insert("len_a".to_string(), ax.len.to_string());
+                d.insert("len_b".to_string(), ay.len.to_string());
+                d.insert("src_a".to_string(), match a.get(0) { Some(Val::Ref(p)) => self.describe_ptr(p), Some(Val::Slice { base, start, len }) => format!("{}[{}..+{}]", self.describe_ptr(base), start.short(), len.short()), _ => "value".into() });
+                d.insert("src_b".to_string(), match a.get(1) { Some(Val::Ref(p)) => self.describe_ptr(p), Some(Val::Slice { base, start, len }) => format!("{}[{}..+{}]", self.describe_ptr(base), start.short(), len.short()), _ => "value".into() });
+                d.insert("path".to_string(), self.call_path());
+                let inst = self.stack.last().map(|b| b.name.clone()).unwrap_or_default();
+                self.probes.push(Probe { what: "array_eq".into(), inst, ctx: String::new(), data: d });
+            }
             let r = if n.ends_with("::ne") { r.map(|b| !b) } else { r };
             let t = x.taint_of() | y.taint_of();
             if self.taint_track && t != 0 && matches!(x, Val::Arr(_)) {
